@@ -10,7 +10,9 @@ def title(d):
                 t=re.sub(r'^Variant [AB]\s*[:—–-]*\s*','',t,flags=re.I)
                 return t.strip(' "').replace('|','/')
     return ''
-groups={'Round 1':[], 'Round 2 (agents told that the obvious defects were taken)':[], 'Round 3 (agents told to avoid the mechanisms of rounds 1 and 2)':[]}
+R4='Round 4 (nine properties; agents told to make the change need something specific to manifest)'
+R5='Round 5 (the other ten properties; same brief as round 4)'
+groups={'Round 1':[], 'Round 2 (agents told that the obvious defects were taken)':[], 'Round 3 (agents told to avoid the mechanisms of rounds 1 and 2)':[], R4:[], R5:[]}
 for d in sorted(glob.glob('/verif/seeded/C*')):
     j=json.load(open(d+'/meta.json'))
     res=j['results']
@@ -19,7 +21,7 @@ for d in sorted(glob.glob('/verif/seeded/C*')):
     earlier=j.get('earlier_results',[])
     first_missed = any(not r.get('detected') for e in earlier for c,r in e.items() if c==j.get('breaks_property'))
     row=(os.path.basename(d), title(d)[:115], caught or '— (not caught)', missed, 'yes' if first_missed else '')
-    key='Round 3 (agents told to avoid the mechanisms of rounds 1 and 2)' if '-R3' in d else 'Round 2 (agents told that the obvious defects were taken)' if '-R2' in d else 'Round 1'
+    key=R5 if '-R5' in d else R4 if '-R4' in d else 'Round 3 (agents told to avoid the mechanisms of rounds 1 and 2)' if '-R3' in d else 'Round 2 (agents told that the obvious defects were taken)' if '-R2' in d else 'Round 1'
     groups[key].append(row)
 out=[]
 for name,rows in groups.items():
